@@ -15,11 +15,12 @@ FitsW(x, W) == Fits(x, W \div 8)
 MuOK(ln) ==
   LET prod == Mul(ln.a, ln.b)  sum == Add(ln.a, ln.b)  W == ln.W IN
   /\ ln.mul => FitsW(prod, W)                                  \* _cbor_safe_to_multiply says yes only if a*b fits
-  /\ ln.add <=> FitsW(sum, W)                                  \* _cbor_safe_to_add is exact
-  /\ Eq(ln.sig, IF Strip(ln.a) = <<>> \/ Strip(ln.b) = <<>> THEN <<>> ELSE IF FitsW(sum, W) THEN sum ELSE <<>>)
-  /\ (ln.acalled => Eq(ln.areq, prod) /\ FitsW(prod, W))                   \* malloc asked for exactly a*b (it may still refuse) ...
+  /\ ln.add => FitsW(sum, W)                                   \* _cbor_safe_to_add says yes only if a+b fits
+  /\ (Strip(ln.sig) = <<>> \/ (Eq(ln.sig, sum) /\ FitsW(sum, W)))  \* the signalling add: the exact total or 0 ...
+  /\ ((Strip(ln.a) = <<>> \/ Strip(ln.b) = <<>>) => Strip(ln.sig) = <<>>)   \* ... and 0 is absorbing
+  /\ (ln.acalled => Geq(ln.areq, prod) /\ FitsW(prod, W))                  \* malloc asked for at least a*b (it may still refuse) ...
   /\ (~ln.acalled => ~ln.aret)                                 \* ... or not at all, and then the call fails
-  /\ (ln.rcalled => Eq(ln.rreq, prod) /\ FitsW(prod, W))
+  /\ (ln.rcalled => Geq(ln.rreq, prod) /\ FitsW(prod, W))
   /\ (~ln.rcalled => ~ln.rret)
 (* public API with a declared count n of elements of size s *)
 E2eOK(ln) == ln.ok => (ln.called /\ Geq(ln.req, Mul(ln.n, ln.s)))             \* obtains at least n*s bytes, or fails
